@@ -237,10 +237,16 @@ theorem isOk_moved (r : Result) (h : r.isOk = true) : r.keepsState = false := by
   cases r <;> simp_all [Result.isOk, Result.keepsState]
 
 /-- The ControlEnvironment glue: either the request succeeded and nothing else
-    happened, or the environment ends in ERROR with the request's own result. -/
+    happened, or the environment ends in ERROR with the request's own result, or — the
+    request failed on (or, for an event the API does not offer, into) a DONE environment — it
+    stays DONE, again with the request's own result. -/
 theorem controlApi_cases (hooks : List Hook) (env : Env) (e : Ev) (b r : Bool) :
     ((controlApi env hooks e b r).2.2.isOk = true ∧ controlApi env hooks e b r = tryTransition env hooks e b r) ∨
     ((controlApi env hooks e b r).2.2.isOk = false ∧ (controlApi env hooks e b r).1.st = .ERROR ∧
+      (controlApi env hooks e b r).1.gone = env.gone ∧
+      (controlApi env hooks e b r).2.2 = (tryTransition env hooks e b r).2.2) ∨
+    ((controlApi env hooks e b r).2.2.isOk = false ∧ (controlApi env hooks e b r).1.st = .DONE ∧
+      (tryTransition env hooks e b r).1.st = .DONE ∧
       (controlApi env hooks e b r).1.gone = env.gone ∧
       (controlApi env hooks e b r).2.2 = (tryTransition env hooks e b r).2.2) := by
   unfold controlApi
@@ -249,17 +255,42 @@ theorem controlApi_cases (hooks : List Hook) (env : Env) (e : Ev) (b r : Bool) :
   · rename_i h; exact Or.inl ⟨h, rfl⟩
   · rename_i h
     have hg1 : (tryTransition env hooks e b r).1.gone = env.gone := (fsmEvent_st env hooks e b r).1
+    have hgone : (tryTransition (tryTransition env hooks e b r).1 hooks .GO_ERROR true false).1.gone = env.gone := by
+      unfold tryTransition
+      rw [(fsmEvent_st (fsmEvent env hooks e b r).1 hooks .GO_ERROR true false).1]; exact hg1
     split
-    · rename_i hgo
-      refine Or.inr ⟨by simpa using h, ?_, ?_, rfl⟩
-      · unfold tryTransition at hgo ⊢
+    · rename_i hc
+      rcases Bool.or_eq_true _ _ |>.mp hc with hgo | hdone
+      · refine Or.inr (Or.inl ⟨by simpa using h, ?_, hgone, rfl⟩)
+        unfold tryTransition at hgo ⊢
         obtain ⟨_, hk | ⟨d, hd, hst, _⟩⟩ := fsmEvent_st (fsmEvent env hooks e b r).1 hooks .GO_ERROR true false
         · have := isOk_moved _ hgo; rw [hk.2] at this; cases this
         · simp only; rw [hst]; exact goError_dst _ _ hd
-      · simp only; unfold tryTransition
-        rw [(fsmEvent_st (fsmEvent env hooks e b r).1 hooks .GO_ERROR true false).1]; exact hg1
-    · refine Or.inr ⟨by simpa using h, rfl, ?_, rfl⟩
-      simp only; unfold tryTransition
-      rw [(fsmEvent_st (fsmEvent env hooks e b r).1 hooks .GO_ERROR true false).1]; exact hg1
+      · have hdone' : (tryTransition (tryTransition env hooks e b r).1 hooks .GO_ERROR true false).1.st = .DONE := by
+          simpa using hdone
+        refine Or.inr (Or.inr ⟨by simpa using h, hdone', ?_, hgone, rfl⟩)
+        -- GO_ERROR never moves into DONE: the requested transition left DONE behind
+        unfold tryTransition at hdone' ⊢
+        obtain ⟨_, hk | ⟨d, hd, hst, _⟩⟩ := fsmEvent_st (fsmEvent env hooks e b r).1 hooks .GO_ERROR true false
+        · rw [← hk.1]; exact hdone'
+        · rw [hst, goError_dst _ _ hd] at hdone'; cases hdone'
+    · exact Or.inr (Or.inl ⟨by simpa using h, rfl, hgone, rfl⟩)
+
+/-- Where the two glues differ: only when the requested transition has left the environment in DONE. -/
+theorem controlApiLegacy_eq (hooks : List Hook) (env : Env) (e : Ev) (b r : Bool)
+    (hnd : (tryTransition env hooks e b r).1.st ≠ .DONE) :
+    controlApiLegacy env hooks e b r = controlApi env hooks e b r := by
+  unfold controlApiLegacy controlApi
+  simp only
+  split
+  · rfl
+  · have hne : (tryTransition (tryTransition env hooks e b r).1 hooks .GO_ERROR true false).1.st ≠ .DONE := by
+      unfold tryTransition at hnd ⊢
+      obtain ⟨_, hk | ⟨d, hd, hst, _⟩⟩ := fsmEvent_st (fsmEvent env hooks e b r).1 hooks .GO_ERROR true false
+      · rw [hk.1]; exact hnd
+      · rw [hst, goError_dst _ _ hd]; decide
+    have hb : ((tryTransition (tryTransition env hooks e b r).1 hooks .GO_ERROR true false).1.st == St.DONE) = false := by
+      simpa using hne
+    rw [hb, Bool.or_false]
 
 end EnvM
